@@ -6,7 +6,7 @@ pub fn interval_into_pair(i: Interval<R>) -> (r: (R, R))
     ensures i is TwoSided ==> r.0 == i->TwoSided_0 && r.1 == i->TwoSided_1,
 { unimplemented!() }
 
-//@item src/quantile.rs struct Stats derive=Clone,Copy
+//@item src/quantile.rs struct Stats derive=Clone,Copy expect_derive=Default
 impl Stats { pub closed spec fn pop(self) -> usize { self.population } }
 // #[derive(Default)] restated
 impl Default for Stats { fn default() -> (r: Self) ensures r.pop() == 0 { Stats { population: 0 } } }
